@@ -9,16 +9,19 @@ EXTENDS Integers, Sequences, FiniteSets, TLC
 
 CONSTANTS Kinds          \* subset of {"sign", "extend"}
 
-(* reply attributes and their good value *)
-SignAttrs == [what : {"resp", "errpdu", "garbage", "close"}, mac : {"ok", "bad", "missing", "otherkey", "otheralg"}, hdr : {"ok", "missing"},
-              ver : {"v2", "v1"}, status : {0, 257}, id : {"same", "other", "stale"}, hash : {"same", "other"},
-              cons : {"ok", "broken"}]
-ExtAttrs == [what : {"resp", "errpdu", "garbage", "close"}, mac : {"ok", "bad", "missing", "otherkey", "otheralg"}, hdr : {"ok", "missing"},
-             ver : {"v2", "v1"}, status : {0, 257}, id : {"same", "other"}, aggrtime : {"same", "other"}, pubtime : {"same", "other"},
-             shape : {"ok", "bad"}, input : {"same", "other"}, rlinks : {"agree", "altered"}]
-GoodSign == [what |-> "resp", mac |-> "ok", hdr |-> "ok", ver |-> "v2", status |-> 0, id |-> "same", hash |-> "same", cons |-> "ok"]
-GoodExt == [what |-> "resp", mac |-> "ok", hdr |-> "ok", ver |-> "v2", status |-> 0, id |-> "same", aggrtime |-> "same", pubtime |-> "same",
-            shape |-> "ok", input |-> "same", rlinks |-> "agree"]
+(* reply attributes and their good value.  Numeric attributes are 64-bit on the wire: besides an ordinary wrong value the server may    *)
+(* send values that coincide with the good one in their low 8 / 16 / 32 bits ("wide": good value + 2^32; statuses as hex strings).   *)
+Status == {"0", "0x101", "0x100", "0x10000", "0x100000000", "0x8000000000000000", "0xffffffff00000000"}
+SignDom == [what |-> {"resp", "errpdu", "garbage", "close"}, mac |-> {"ok", "bad", "missing", "otherkey", "otheralg"}, hdr |-> {"ok", "missing"},
+            ver |-> {"v2", "v1"}, status |-> Status, id |-> {"same", "other", "stale", "wide"}, hash |-> {"same", "other"}, cons |-> {"ok", "broken"},
+            body |-> {"full", "empty"}]        \* the response payload carries the chains / only id, status and error message
+ExtDom == [what |-> {"resp", "errpdu", "garbage", "close"}, mac |-> {"ok", "bad", "missing", "otherkey", "otheralg"}, hdr |-> {"ok", "missing"},
+           ver |-> {"v2", "v1"}, status |-> Status, id |-> {"same", "other", "wide"}, aggrtime |-> {"same", "other", "wide"}, pubtime |-> {"same", "other", "wide"},
+           shape |-> {"ok", "bad"}, input |-> {"same", "other"}, rlinks |-> {"agree", "altered"}, body |-> {"full", "empty"}]
+InDom(a, D) == DOMAIN a = DOMAIN D /\ \A f \in DOMAIN D : a[f] \in D[f]
+GoodSign == [what |-> "resp", mac |-> "ok", hdr |-> "ok", ver |-> "v2", status |-> "0", id |-> "same", hash |-> "same", cons |-> "ok", body |-> "full"]
+GoodExt == [what |-> "resp", mac |-> "ok", hdr |-> "ok", ver |-> "v2", status |-> "0", id |-> "same", aggrtime |-> "same", pubtime |-> "same",
+            shape |-> "ok", input |-> "same", rlinks |-> "agree", body |-> "full"]
 Diff(a, g) == {f \in DOMAIN g : a[f] # g[f]}
 
 VARIABLES phase,   \* "idle" | "sent" | "replied" | "done"
@@ -31,9 +34,11 @@ vars == <<phase, req, reply, result>>
 (* (the SDK itself adds the requested level to the first level correction of the reply, so a reply cannot carry a "lower level") *)
 SignReqs == {[kind |-> "sign", alg |-> a, level |-> l, api |-> p] : a \in {"sha256", "sha512", "sha1"}, l \in {0, 3, 250}, p \in {"aggregated", "create", "async"}}
             \ {x \in [kind : {"sign"}, alg : {"sha256", "sha512", "sha1"}, level : {3, 250}, api : {"create"}] : TRUE}
+(* targets: none (head), the signature's old publication time, the aggregation time itself, later, earlier, a supplied publication record *)
+Targets == {"head", "equal", "ataggr", "later", "earlier", "pubrec"}
 ExtReqs == {[kind |-> "extend", oldcal |-> c, oldanchor |-> an, target |-> t] :
-               c \in BOOLEAN, an \in {"none", "pub", "auth"}, t \in {"head", "equal", "later", "earlier", "pubrec"}}
-            \ {x \in [kind : {"extend"}, oldcal : {FALSE}, oldanchor : {"pub", "auth"}, target : {"head", "equal", "later", "earlier", "pubrec"}] : TRUE}
+               c \in BOOLEAN, an \in {"none", "pub", "auth"}, t \in Targets}
+            \ {x \in [kind : {"extend"}, oldcal : {FALSE}, oldanchor : {"pub", "auth"}, target : Targets] : TRUE}
 
 Init == /\ phase = "idle" /\ reply = [what |-> "-"] /\ result = "-"
         /\ req \in (IF "sign" \in Kinds THEN SignReqs ELSE {}) \cup (IF "extend" \in Kinds THEN ExtReqs ELSE {})
@@ -48,7 +53,7 @@ Send == /\ phase = "idle"
 
 ServerReplies(a) ==
     /\ phase = "sent" /\ reply' = a /\ phase' = "replied"
-    /\ a \in (IF req.kind = "sign" THEN SignAttrs ELSE ExtAttrs)
+    /\ InDom(a, IF req.kind = "sign" THEN SignDom ELSE ExtDom)
     /\ UNCHANGED <<req, result>>
 
 (* the client accepts exactly the authentic, status-zero, matching, consistent reply *)
@@ -60,14 +65,17 @@ Finish == /\ phase = "replied" /\ phase' = "done"
           /\ UNCHANGED <<req, reply>>
 
 (* the server deviates from the honest reply in at most two attributes *)
-Replies == IF req.kind = "sign" THEN {a \in SignAttrs : Cardinality(Diff(a, GoodSign)) <= 2} ELSE {a \in ExtAttrs : Cardinality(Diff(a, GoodExt)) <= 2}
+Alt(g, D) == {<<f, v>> : f \in DOMAIN g, v \in UNION {D[x] : x \in DOMAIN D}} \cap UNION {{<<f, v>> : v \in D[f] \ {g[f]}} : f \in DOMAIN g}
+Within2(g, D) == {g} \cup {[g EXCEPT ![p[1]] = p[2]] : p \in Alt(g, D)}
+                     \cup {[g EXCEPT ![pq[1][1]] = pq[1][2], ![pq[2][1]] = pq[2][2]] : pq \in {x \in Alt(g, D) \X Alt(g, D) : x[1][1] # x[2][1]}}
+Replies == IF req.kind = "sign" THEN Within2(GoodSign, SignDom) ELSE Within2(GoodExt, ExtDom)
 Next == Send \/ Finish \/ \E a \in Replies : ServerReplies(a)
 Spec == Init /\ [][Next]_vars
 
 (* ---- C07 / C08 as invariants ---- *)
 SuccessOnlyIfValid ==
     result = "success" =>
-        /\ reply.what = "resp" /\ reply.mac = "ok" /\ reply.hdr = "ok" /\ reply.ver = "v2" /\ reply.status = 0 /\ reply.id = "same"
+        /\ reply.what = "resp" /\ reply.mac = "ok" /\ reply.hdr = "ok" /\ reply.ver = "v2" /\ reply.status = "0" /\ reply.id = "same" /\ reply.body = "full"
         /\ req.kind = "sign" => (reply.hash = "same" /\ reply.cons = "ok" /\ ~RefusedLocally(req) /\ req.alg # "sha1")
         /\ req.kind = "extend" => (reply.aggrtime = "same" /\ reply.shape = "ok" /\ reply.input = "same"
                                   /\ (req.target # "head" => reply.pubtime = "same") /\ (req.oldcal => reply.rlinks = "agree"))
